@@ -534,7 +534,7 @@ def main(chk, args):
             p, fl = tkeys[ix[j]]
             nrej += 1
             if fl >= 0:
-                ks = [k for k in bad if any(x[0] is meta[fl] for x in bad[k])]
+                ks = [k for k in bad if not k.startswith(('helper:', 'async:')) and any(x[0] is meta[fl] for x in bad[k])]
                 key = 'trace:' + (ks[0] if ks else f'flagged:{p}')
             else:
                 key = f'trace:unflagged:{p}'
